@@ -60,6 +60,7 @@ def run(ctx):
     ok = bool(rd) and all(any(isinstance(l, ast.For) and "after" in norm(l.iter) for l in enclosing_loops(sched, x)) for x in rd)
     c.ob("R2", ok, sched, "delay-resolved-at-entry", "named / computed delays are resolved when the state's tasks are armed (at entry)" if ok else
          "_schedule_state_tasks no longer resolves the delay through _resolve_delay for each after-key", sched.node)
+    shared.eligible_bucket_rules(ctx, "R8", "after")
     # ---- R7 several delays on one state are independent: nothing but 'continue' (or a raise) leaves an arming loop early ----
     for l in [x for x in own_nodes(sched.node) if isinstance(x, ast.For) and (".after" in norm(x.iter) or ".invoke" in norm(x.iter))]:
         early = [y for st_ in l.body for y in ast.walk(st_) if isinstance(y, (ast.Break, ast.Return))
